@@ -419,7 +419,7 @@ impl Prop for C10 {
                         }
                     }
                 }
-                if exp_u.len() as u64 != needed {
+                if unlimited.is_err() || exp_u.len() as u64 != needed {
                     // some expansions are invisible to the frontier model: indices would not line up
                     o.label("runtime-not-judged-invisible-expansions");
                     return o;
